@@ -5,7 +5,8 @@ From CMinx Require Import Base.Str Model.Lexer Model.Parser Model.Writer Model.D
      Model.Pipeline Model.Path Model.Naming Gen.SourceLiterals
      Proofs.NamingFacts Proofs.AggInv Proofs.LiteralsMatch
      Base.PySem Gen.PySource Proofs.SourceMatch
-     Proofs.SourceLinks.
+     Proofs.SourceLinks
+     Proofs.SourceMatch3.
 Import ListNotations.
 
 (* the page: title frame (first header character repeated to exactly the title's length), then
@@ -148,3 +149,20 @@ Theorem C12_single_file_names_match_source :
     = header_and_module prefix sep ext_titles ext_modules (if isdir then relpath else basename).
 Proof. exact single_file_names_match_source. Qed.
 Print Assumptions C12_single_file_names_match_source.
+
+(* py2coq batch 5: the whole of Documenter.process_docs and the writer construction of Documenter.__init__ as regenerated from documenter.py *)
+Theorem C12_process_docs_whole_matches_source :
+  forall w module_name docs,
+    modules_only_first docs = true ->
+    PySource.Documenter_process_docs_whole w docs module_name []
+    = Some (page_state w module_name docs,
+            map after_process (snd (finalize (w_title w) module_name docs))).
+Proof. exact process_docs_whole_matches_source. Qed.
+Print Assumptions C12_process_docs_whole_matches_source.
+
+Theorem C12_init_writer_matches_source :
+  forall file title module_name,
+    PySource.Documenter_init_writer file title module_name
+    = (winit (effective_title file title), effective_module file title module_name, []).
+Proof. exact init_writer_matches_source. Qed.
+Print Assumptions C12_init_writer_matches_source.
